@@ -1,17 +1,17 @@
 from lib.pipeline import Prop
 PROP = Prop(
     "C09", harness="sim", quick=["--mode", "cmt"], thorough=["--mode", "cmt"], harness_kind="test", tags="verif synctests", driver="C09",
-    models=[("pkg/kgo/consumer_group.go", ["Client.CommitOffsets", "Client.CommitOffsetsSync", "Client.CommitRecords", "groupConsumer.commit", "groupConsumer.updateCommitted"])],
+    models=[("pkg/kgo/consumer_group.go", ["Client.CommitOffsets", "Client.CommitOffsetsSync", "Client.CommitRecords", "Client.CommitMarkedOffsets", "Client.commitOffsets", "groupConsumer.commit", "groupConsumer.updateCommitted"])],
     rule="scenario = one group member issuing 4-19 commits in sequence through CommitOffsets (async), CommitOffsetsSync and CommitRecords over 1-4 partitions of topic t and, in 70% of the scenarios, "
          "of a second consumed topic a whose name sorts first (a partition is topic+number, written 100*topic+number; commit k carries offset 1000+k for a random subset of the partitions of both topics) "
          "against a real kfake whose coordinator is slow or answers COORDINATOR_LOAD_IN_PROGRESS / NOT_COORDINATOR / REQUEST_TIMED_OUT / UNKNOWN_TOPIC_OR_PARTITION for a whole request, "
          "with MIXED per-partition answers from two sources: topic a is deleted through a separate admin client before a random commit (45% of the two-topic scenarios; later answers are UNKNOWN_TOPIC_ID / "
          "UNKNOWN_TOPIC_OR_PARTITION for a's partitions and success for t's), and in half of the scenarios 15-50% of the answers are rewritten on the wire (sim.Net.MutateResponse): the first 1..n-1 partitions "
          "in the client's processing order that the coordinator answered with success are shown OFFSET_METADATA_TOO_LARGE / INVALID_COMMIT_OFFSET_SIZE / TOPIC_AUTHORIZATION_FAILED (event Wt: partition tainted); "
-         "optionally commits whose own context ends early and a second member that joins and leaves (rebalances); history = issue/finish of every commit, every OffsetCommit request and the answer shown to "
+         "in a third of the scenarios without a second member the member uses AutoCommitMarks (interval beyond the scenario) and 40% of its commits are MarkCommitOffsets(every partition -> 1000+k) + CommitMarkedOffsets; optionally commits whose own context ends early and a second member that joins and leaves (rebalances); history = issue/finish of every commit, every OffsetCommit request and the answer shown to "
          "the client per partition, taints, the topic deletion, CommittedOffsets and OffsetFetch at the end; non-trivial = at least 4 commits and an error answer or at least 8 commits",
-    trusted_base=["history monitor Model.Commit", "harness/sim wire observation and rewriting (kmsg parsing / re-encoding of OffsetCommit)", "Lean compiler/runtime for the driver"],
-    assumptions=["commits are issued from one goroutine in sequence", "CommitUncommittedOffsets is not generated (it commits polled positions, not chosen offsets)",
+    trusted_base=["history monitors Model.Commit and Model.CommitReport", "harness/sim wire observation and rewriting (kmsg parsing / re-encoding of OffsetCommit)", "Lean compiler/runtime for the driver"],
+    assumptions=["commits are issued from one goroutine in sequence", "CommitUncommittedOffsets itself is not generated (it commits polled positions, not chosen offsets); its tail, Client.commitOffsets, is reached through MarkCommitOffsets + CommitMarkedOffsets in mark-mode scenarios",
                  "final-value clauses are not judged for a partition whose successful answer was rewritten into an error on the wire (until its next genuinely successful answer) nor for partitions of a deleted topic; "
                  "every other partition of the same answer is judged"],
     run_timeout={"quick": 900, "thorough": 3400},
@@ -20,7 +20,7 @@ MANIFEST = {
     "text": "Verified monitor: Lean theorems over ALL accepted commit histories: the commit offsets seen at the coordinator never decrease (commits arrive in issue order, retries included), every "
             "request belongs to an issued commit, and after all commits finished the group's offset and CommittedOffsets of every partition (topic+number) equal its value in the last commit the coordinator "
             "answered without error for that partition - per partition: an answer with mixed per-partition results (one partition refused, another applied) leaves every other partition of that answer "
-            "held to its own last successful commit (theorems mixed_response_other_partitions_still_judged, requirement_of_a_partition_ignores_other_partitions). Tie: history correspondence with a real "
+            "held to its own last successful commit (theorems mixed_response_other_partitions_still_judged, requirement_of_a_partition_ignores_other_partitions); and a commit that REPORTS success to the application (callback without error and error codes, nil from CommitRecords / CommitMarkedOffsets) was answered with success, as shown to the client, for every partition it named (second monitor Model.CommitReport, theorem reported_success_was_answered_successfully). Tie: history correspondence with a real "
             "kgo group member x kfake over two consumed topics under slow and failing commit answers, mixed answers (a consumed topic deleted meanwhile; answers rewritten on the wire), commits whose "
             "context ends early and concurrent rebalances.",
     "note": "Trusted: Lean kernel; monitor vocabulary; harness (including the wire rewriting). Not judged in the final-value clauses: partitions without any successful commit, partitions whose "
